@@ -254,6 +254,16 @@ def sp_append(eng, st, seq, x):
     return V.seq_append(seq, eng.as_sym(x))
 
 
+def sp_extend(eng, st, seq, newlen, x):
+    """seq extended to length newlen (>= len(seq)) with copies of x."""
+    seq = eng.as_sym(seq)
+    n = eng._int(eng.as_sym(newlen))
+    xv = V.coerce(eng.as_sym(x), seq.shape.elem)
+    k = z3.Int(V.fresh_name("xk"))
+    arrs = [z3.Lambda([k], z3.If(k < seq.d[1], z3.Select(a, k), l)) for a, l in zip(seq.d[0], V.leaves(xv))]
+    return Val(seq.shape, (arrs, n))
+
+
 def sp_empty_ints(eng, st):
     return V.vseq_empty(INT)
 
@@ -341,6 +351,7 @@ def sp_tag(eng, st, u):
 def register(reg):
     f = reg.spec_funcs
     f["append"] = sp_append
+    f["extend"] = sp_extend
     f["empty_ints"] = sp_empty_ints
     f["slice"] = sp_slice
     f["forall_key_absent"] = sp_forall_key_absent
